@@ -303,6 +303,8 @@ fn main() {
             subs.extend(c15::subs::<B62, hashers::Blake3_192<B62>>(&run, "blake3_192"));
             subs.extend(c15::subs::<QuadExtension<B128>, hashers::Sha3_256<B128>>(&run, "sha3_256"));
             subs.extend(c15::subs::<CubeExtension<B64>, hashers::RpJive64_256>(&run, "rpjive64_256"));
+            subs.extend(c15::large_layer_subs::<QuadExtension<B128>, hashers::Sha3_256<B128>>(&run, "sha3_256"));
+            subs.extend(c15::large_layer_subs::<CubeExtension<B64>, hashers::Blake3_256<B64>>(&run, "blake3_256"));
             subs.extend(c15::position_subs());
             run.go(subs)
         },
